@@ -1,0 +1,26 @@
+//go:build verif
+
+package p2p
+
+import (
+	"bytes"
+
+	"github.com/LemoFoundationLtd/lemochain-core/common/rlp"
+)
+
+// VerifDecodeAuthReq decodes a decrypted handshake request exactly as readHandshakeReqMsg does
+// (rlp.NewStream with no limit), but reports the error that readHandshakeReqMsg drops.
+func VerifDecodeAuthReq(buf []byte) (fields [][]byte, reenc []byte, err error) {
+	req := new(authReqMsg)
+	err = rlp.NewStream(bytes.NewReader(buf), 0).Decode(req)
+	reenc, _ = rlp.EncodeToBytes(req)
+	return [][]byte{req.Signature[:], req.ClientPubKey[:], req.InitNonce[:]}, reenc, err
+}
+
+// VerifDecodeAuthResp is the same for readHandshakeRespMsg.
+func VerifDecodeAuthResp(buf []byte) (fields [][]byte, reenc []byte, err error) {
+	resp := new(authRespMsg)
+	err = rlp.NewStream(bytes.NewReader(buf), 0).Decode(resp)
+	reenc, _ = rlp.EncodeToBytes(resp)
+	return [][]byte{resp.RandomPubKey[:], resp.RespNonce[:]}, reenc, err
+}
